@@ -485,6 +485,26 @@ def r14c(ctx, classes):
                f'the layer re-quantises with a factor that does not approximate '
                f's_w*s_x/s_y and the 32-bit bound checked for the selected pair does not '
                f'hold for the returned one', where(fn))
+        # the factor is applied as ``scale / 2 ** shift`` in the dtype of the returned tensors:
+        # the admissible shifts go up to shift_pos - 1 (31 for the 32-bit option), and 2 ** 31
+        # wraps to -2 ** 31 in int32 (sign of the re-quantised output flips); the default
+        # (int64 for Python ints) and floating types hold it
+        narrow = set()
+        for q in full:
+            for x in subterms(q.retval):
+                if x[0] == 'call' and (callee(x) or '').startswith('torch.'):
+                    d = arg(x, None, 'dtype')
+                    if d is not None and d[0] == 'global' and d[1] in (
+                            'torch.int32', 'torch.int16', 'torch.int8', 'torch.uint8',
+                            'torch.int', 'torch.short', 'torch.float16', 'torch.half',
+                            'torch.bfloat16'):
+                        narrow.add(d[1])
+        ctx.ob('R14c', f'{ci.name}._integer_approximation returns tensors that hold 2**shift',
+               not narrow, 'default (64-bit) or floating dtype' if not narrow else
+               f'scale / shift are returned as {sorted(narrow)}: forward computes 2 ** shift in '
+               f'that type, and the largest admissible shift (shift_pos - 1 = 31 with the 32-bit '
+               f'option) wraps around, so the integer layer re-quantises with a factor of the '
+               f'wrong sign / magnitude', where(fn))
     ref_name = sorted(facts)[0]
     ref = facts[ref_name]
     expected = {'upper_bound': 'two**(scale_bits - 1)', 'target': 's_w*s_x/s_y',
